@@ -19,14 +19,15 @@ LEVEL_NOTE = ("trusts the 10-line detector model in this module; observation by 
 RULE = (
     "per key the state is the last (reboot flag, session id) or unknown over ids {1,2,3,0x7FFF,0xFFFE,0xFFFF}: every "
     "(state, input) for one key, every (state1, state2, input on either key) for two keys that differ in sender host, in sender port or in "
-    "channel, then seeded random histories (<=200 messages, 4 senders x 2 channels, ids 1..0xFFFF, empty and non-empty SD "
+    "channel, every (state, input, input) delivered as a burst inside one loop iteration (same channel / both channels / two "
+    "messages in one datagram), then seeded random histories (<=200 messages, 4 senders x 2 channels, ids 1..0xFFFF, empty and non-empty SD "
     "messages, non-SD noise in between). distinct = distinct abstract (state(s), input) or random history prefix hash; "
     "non-trivial = key state known before the input"
 )
 ASSUMPTIONS = ["detector model: flag and (not old_flag or sid <= old_sid); first message of a key never triggers",
                "messages are SD notifications with the unicast flag set; session id 0 never sent (C08)"]
 FLOORS = {"quick": {"messages_judged": 20000, "detections_expected": 3000, "fanout_checks": 3000,
-                    "single_key_transitions": 156, "two_key_cases": 3 * 13 * 13 * 24, "random_histories": 100,
+                    "single_key_transitions": 156, "two_key_cases": 3 * 13 * 13 * 24, "random_histories": 100, "burst_cases": 13 * 12 * 12 * 3,
                     "check_received_probe": 20000}}
 
 SIDS = (1, 2, 3, 0x7FFF, 0xFFFE, 0xFFFF)
@@ -117,6 +118,36 @@ class Rig:
                 problems.append(("check_received-return-differs-from-model", dict(expected=exp, got=list(self.probe))))
         return problems
 
+    def send_burst(self, msgs, one_datagram=False):
+        """several messages handled in ONE loop iteration (two sockets readable in the same select round, or several SD
+        messages in one UDP frame); every detection must still reach every component once"""
+        self.t += 2.0 ** -7
+        self.calls.clear()
+        self.probe.clear()
+        datas = [(net.sd_bytes([], sid, reboot=flag), sender, mc) for sender, mc, flag, sid in msgs]
+        if one_datagram:
+            sender, mc = msgs[0][0], msgs[0][1]
+            self.h.at(self.t, self.prot.datagram_received, b"".join(d[0] for d in datas), sender, mc)
+        else:
+            for data, sender, mc in datas:
+                self.h.at(self.t, self.prot.datagram_received, data, sender, mc)
+        self.h.run(self.t)
+        want = []
+        for sender, mc, flag, sid in msgs:
+            self.ctx.count("messages_judged")
+            if self.model.feed(sender, mc, flag, sid):
+                self.ctx.count("detections_expected")
+                self.ctx.count("fanout_checks")
+                want += [(n, sender) for n in ("discovery", "subscriber", "announcer")]
+        self.ctx.count("burst_messages", len(msgs))
+        problems = []
+        if sorted(self.calls) != sorted(want):
+            mech = "detection-does-not-reach-each-component-exactly-once" if len(self.calls) < len(want) or self.calls else "reboot-not-detected"
+            if not want:
+                mech = "false-reboot-detection"
+            problems.append((mech, dict(expected=sorted(want), got=sorted(self.calls), burst=True, one_datagram=one_datagram)))
+        return problems
+
     def close(self):
         bad = self.h.problems()
         self.h.close()
@@ -133,7 +164,8 @@ def shards(tier, seed):
     out = [dict(shard=0, seed=seed, mode="single"),
            dict(shard=1, seed=seed, mode="two", variant="other-sender"),
            dict(shard=2, seed=seed, mode="two", variant="other-channel"),
-           dict(shard=3, seed=seed, mode="two", variant="other-port")]
+           dict(shard=3, seed=seed, mode="two", variant="other-port"),
+           dict(shard=4, seed=seed, mode="bursts")]
     k = 4 if tier == "quick" else 16
     n = 40 if tier == "quick" else 3000
     out += [dict(shard=10 + i, seed=seed, mode="random", n=n) for i in range(k)]
@@ -191,6 +223,29 @@ def run(spec, ctx):
                             report(ctx, rig.send(k[0], k[1], inp[0], inp[1]), hist)
                             ctx.count("two_key_cases")
                             ctx.case(("two", spec["variant"], s1, s2, which, inp), s1 is not None or s2 is not None)
+        elif spec["mode"] == "bursts":
+            # all pairs of inputs for one sender delivered in one iteration, after each prior state, on the same channel,
+            # on both channels, and packed into one datagram
+            first = True
+            for st in STATES:
+                for i1 in INPUTS:
+                    for i2 in INPUTS:
+                        for shape in ("same-channel", "both-channels", "one-datagram"):
+                            a = addr_for(next(fresh))
+                            hist = []
+                            if st is not None:
+                                for mc in (False, True):
+                                    hist.append((a, mc, st[0], st[1], False))
+                                    report(ctx, rig.send(a, mc, st[0], st[1]), hist)
+                            m1 = (a, False, i1[0], i1[1])
+                            m2 = (a, shape == "both-channels", i2[0], i2[1])
+                            hist += [m1 + ("burst",), m2 + ("burst",)]
+                            report(ctx, rig.send_burst([m1, m2], one_datagram=shape == "one-datagram"), hist)
+                            ctx.count("burst_cases")
+                            ctx.case(("burst", st, i1, i2, shape), st is not None,
+                                     sample=dict(prior_state=st, burst=[i1, i2], shape=shape) if first and st is not None else None)
+                            if st is not None:
+                                first = False
         else:
             for i in range(spec["n"]):
                 senders = [addr_for(next(fresh), v6=(j % 2 == 1)) for j in range(3)]
@@ -239,10 +294,17 @@ def replay(doc, ctx):
     rig = Rig(ctx, rng)
     hist = []
     try:
+        burst = []
         for s, mc, flag, sid, noise in doc["history"]:
             s = tuple(s)
             hist.append((s, mc, flag, sid, noise))
-            report(ctx, rig.send(s, mc, flag, sid, (), noise), hist)
+            if noise == "burst":
+                burst.append((s, mc, flag, sid))
+                continue
+            report(ctx, rig.send(s, mc, flag, sid, (), bool(noise)), hist)
+        if burst:
+            report(ctx, rig.send_burst(burst), hist)
+            report(ctx, Rig(ctx, rng).send_burst(burst, one_datagram=True) if False else [], hist)
         ctx.case(("replay",), True)
     finally:
         rig.close()
